@@ -75,6 +75,15 @@ CATALOGUE = [
     "struct Foo:\n  0 [+1]  UInt:8[-1]  x\n",
     "struct Foo:\n  0 [+1]  bits:\n    0 [+8]  bits:\n      0 [+8]  UInt  x\n",
     "struct Foo:\n  enum Ee:\n    AA = 1\n  struct Foo:\n    0 [+1]  Ee  e\n  0 [+1]  Foo  f\n",
+    # a type error in a start, size or condition: the synthesized $size_in_bytes copy fails one pass earlier
+    "struct Foo:\n  0 [+1]  bits:\n    0 [+1]  Flag  fl\n  1 [+fl]  UInt:8[]  x\n",
+    "struct Foo:\n  0 [+1]  bits:\n    0 [+1]  Flag  fl\n  fl [+1]  UInt  x\n",
+    "struct Foo:\n  0 [+1]  UInt  n\n  if n:\n    1 [+1]  UInt  x\n",
+    "struct Foo:\n  0 [+1]  UInt  n\n  if n + true:\n    1 [+1]  UInt  x\n",
+    "struct Foo:\n  0 [+1]  UInt  n\n  n == 1 [+1]  UInt  x\n",
+    "enum Ee:\n  AA = 1\nstruct Foo:\n  0 [+1]  Ee  e\n  e [+1]  UInt  x\n",
+    "struct Foo:\n  0 [+1]  Flag:2  f\n",
+    "struct Foo:\n  0 [+4]  UInt:16  f\n",
 ]
 
 
@@ -290,7 +299,7 @@ def check_case(case):
         texts = list(CATALOGUE)
         for c in CATALOGUE:
             texts.append('[$default byte_order: "LittleEndian"]\n' + c)
-        imp = "# imported module\n" + "\n" * 9 + "struct Bar:\n  let k = 3\n  0 [+1]  UInt  x\n  1 [+1]  UInt                                             far_right_field\nenum En:\n  AA = 1\n"
+        imp = "# imported module\n" + "\n" * 9 + "struct Bar:\n  let k = 3\n  0 [+1]  UInt  x\n  1 [+1]  UInt                                             far_right_field\nenum En:\n  AA = 1\n\n\n\nstruct Word:\n  0 [+2]  UInt  v\n"
         multi = [
             'import "imp.emb" as im\nstruct Foo:\n  0 [+1]  UInt  x\n  if im.Bar.x == 1:\n    1 [+1]  UInt  y\n',
             'import "imp.emb" as im\nstruct Foo:\n  im.Bar.far_right_field [+1]  UInt  x\n',
@@ -301,6 +310,12 @@ def check_case(case):
             'import "imp.emb" as im\nstruct Bar:\n  0 [+1]  UInt  x\nstruct Foo:\n  0 [+1]  Bar  a\n  1 [+1]  im.Bar  b\n  let v = a.far_right_field\n',
             'import "imp.emb" as im\nimport "imp.emb" as im\nstruct Foo:\n  0 [+1]  UInt  x\n',
             'import "imp.emb" as im\nstruct Foo(p: im.Bar):\n  0 [+1]  UInt  x\n',
+            'import "imp.emb" as im\nstruct Foo:\n  0 [+4]  im.Word:32  w\n',
+            'import "imp.emb" as im\nstruct Foo:\n  0 [+1]  im.Word:8  w\n',
+            'import "imp.emb" as im\nstruct Foo:\n  0 [+3]  im.Word  w\n',
+            'import "imp.emb" as im\nstruct Foo:\n  0 [+2]  im.Word[2]  w\n',
+            'import "imp.emb" as im\nstruct Foo:\n  0 [+2]  im.Bar(1)  w\n',
+            'import "imp.emb" as im\nstruct Foo:\n  0 [+1]  UInt  x\n  let v = im.En.AA + 1\n',
         ]
         return run_many(texts + multi, "catalogue", files={"imp.emb": imp})
     if k == "cli":
